@@ -31,6 +31,12 @@ def replay_and_validate(tag, init, behaviours, shards=16, timeout=1800, seed=0):
     items = [((b[2] if len(b) > 2 else i + 1), b[0], b[1]) for i, b in enumerate(behaviours)]
     if not items:
         raise MachineryError("no behaviours to replay for %s" % tag)
+    # bounded memory: beyond VERIF_MAXBEHAV behaviours a seeded sample is replayed
+    maxb = int(os.environ.get("VERIF_MAXBEHAV", "250000"))
+    if len(items) > maxb:
+        import random
+        tlcrun.SAMPLING.append({"what": "behaviours replayed (%s)" % tag, "total": len(items), "kept": maxb})
+        items = random.Random(seed).sample(items, maxb)
     n = max(1, min(shards, len(items)))
     chunks = [items[i::n] for i in range(n)]
     t0 = time.time()
